@@ -33,8 +33,8 @@ TRUSTED = ["harness/h_C06.cpp: hand-off semaphores force the schedule; the guard
            "meta-theorem: C++11 DRF-SC (a race-free program using only seq_cst atomics has interleaving semantics); "
            "race freedom of the plain buffer bytes is theorem C06_drf",
            "the hook stands before each memcpy, not inside it (byte granularity is covered by the model and C06_drf only)",
-           "Section hypothesis frame_hd: frame (m ++ rest) = length m for well-formed m (to be discharged by the "
-           "OSC length theorem for non-bundle messages)"]
+           "Section hypothesis frame_hd: frame (m ++ rest) = length m for well-formed m that is self-delimiting or "
+           "has nothing behind it (discharged for the OSC length model: C06_frame_ok_osc, C06_fifo_osc_bundle_last)"]
 ASSUMPTIONS = ["exactly one writer thread and one reader thread; reads are guarded by hasNext with the same lookahead flag",
                "messages are well-formed non-bundle OSC messages (a bundle followed by another message cannot be framed: "
                "finding bundle-not-last)",
@@ -507,6 +507,12 @@ LEVEL_TEXT = ("For every ring size, every writer/reader script of well-formed me
               "model's reads are exactly the accepted messages in order, hasNext is the abstract emptiness test at its "
               "load of write, dropped writes change nothing, lookahead reads do not consume, the plain buffer accesses of "
               "the two threads never conflict. The model is tied to the code on every run: same schedule on two real "
-              "threads, every event (hook id, indices, buffer hash), every result and the final buffer compared.")
-LEVEL_NOTE = ("Trusted: Coq kernel, extraction, OCaml driver, harness/scheduler, generator, DRF-SC meta-theorem, frame_hd "
-              "hypothesis (message framing is self-delimiting for well-formed non-bundle messages).")
+              "threads, every event (hook id, indices, buffer hash), every result and the final buffer compared. "
+              "With the OSC framing function: proved for scripts of well-formed non-bundle messages "
+              "(C06_fifo_osc_partial) and for scripts whose only bundle is the last message (C06_fifo_osc_bundle_last); "
+              "a bundle followed by another message wedges the queue (C06_bundle_not_last_refuted, finding "
+              "bundle-not-last; the classifier accepts only that signature - an empty guarded read of such a bundle, "
+              "the rest of the trace judged with that behaviour granted).")
+LEVEL_NOTE = ("Trusted: Coq kernel, extraction, OCaml driver, harness/scheduler, generator, DRF-SC meta-theorem. The framing "
+              "hypothesis is discharged for the OSC length model (C06_frame_ok_osc, C06_fifo_osc_bundle_last); the order "
+              "of hook ids inside an operation is compared by the tie only (the Spec oracle needs ids 1, 4, 11, 16/17).")
